@@ -121,7 +121,15 @@ class Terms:
                 return T(e['expr'])
             return ('unary', e['op'], T(e['expr']))
         if k == 'Field':
-            return ('field', T(e['base']), e['member'])
+            bt = T(e['base'])
+            # a field of a struct value built in this function (e.g. an element pushed into a collection) is that component
+            if isinstance(bt, tuple) and bt and bt[0] == 'struct':
+                for mt in bt[2:]:
+                    if isinstance(mt, tuple) and len(mt) == 2 and str(mt[0]) == str(e['member']):
+                        return mt[1]
+            if isinstance(bt, tuple) and bt and bt[0] == 'tuple' and isinstance(e['member'], int) and 1 + e['member'] < len(bt):
+                return bt[1 + e['member']]
+            return ('field', bt, e['member'])
         if k == 'Lit':
             l = e['lit']
             return ('lit', l['k'], l.get('v', l.get('text', l.get('digits'))))
@@ -149,6 +157,32 @@ class Terms:
                             return ('iflet', rt[1], rt[2], ('iflet', 'Some(_)', rt[3], inner if m == 'and_then' else ('Some', inner), ('None',)), ('None',))
                         bt = subst_term(bt, cp, ('some_of', rt))
                         return ('iflet', 'Some(_)', rt, bt if m == 'and_then' else ('Some', bt), ('None',))
+            # X.map(path_fn) on an optional source = if let Some(v) = X { Some(path_fn(v)) } else { None }
+            if m == 'map' and len(e['args']) == 1 and e['args'][0]['k'] == 'Path':
+                rt = T(e['recv'])
+                optional_src = isinstance(rt, tuple) and (rt[0] == 'iflet' or (rt[0] == 'field' and rt[2] == 'ident')
+                                                          or (rt[0] == 'mcall' and rt[2] in ('get', 'get_key_value', 'first', 'last', 'next', 'find', 'get_ident', 'get_mut')))
+                if optional_src:
+                    ft = T(e['args'][0])
+                    fname = ft[1] if isinstance(ft, tuple) and ft[0] == 'path' else None
+                    if fname:
+                        r = self.crate.resolve(self.fw.fn.module, [s_['id'] for s_ in e['args'][0]['path']['segs']])
+                        if r[0] == 'crate':
+                            fname = 'crate::' + '::'.join(r[1])
+                        return ('iflet', 'Some(_)', rt, ('Some', ('call', fname, ('some_of', rt))), ('None',))
+            # <optional>.unwrap_or_else(|| E) / .unwrap_or(E): the value, else E
+            if m in ('unwrap_or_else', 'unwrap_or') and len(e['args']) == 1:
+                rt = T(e['recv'])
+                if isinstance(rt, tuple) and rt[0] == 'iflet' and rt[4] == ('None',) and isinstance(rt[3], tuple) and rt[3][0] == 'Some' and len(rt[3]) == 2:
+                    a0 = e['args'][0]
+                    alt = None
+                    if m == 'unwrap_or':
+                        alt = T(a0)
+                    elif a0['k'] == 'Closure' and not a0['params']:
+                        body = a0['body']
+                        alt = self.block_value_term(body, depth + 1) if body['k'] == 'Block' else self.value_in_recorded_scope(body, depth + 1)
+                    if alt is not None and not (isinstance(alt, tuple) and alt[0] == 'opaque'):
+                        return ('iflet', rt[1], rt[2], rt[3][1], alt)
             args = []
             for a in e['args']:
                 if a['k'] == 'Closure':
@@ -324,7 +358,12 @@ class Terms:
                 else:
                     t = ('proj', step[1], t)
             elif step[0] == 'sf':
-                t = ('sfield', step[1], step[2], t)
+                hit = None
+                if isinstance(t, tuple) and t and t[0] == 'struct':
+                    for mt in t[2:]:
+                        if isinstance(mt, tuple) and len(mt) == 2 and str(mt[0]) == str(step[2]):
+                            hit = mt[1]
+                t = hit if hit is not None else ('sfield', step[1], step[2], t)
             elif step[0] in ('ref', 'at', 'or'):
                 pass
             else:
@@ -389,14 +428,16 @@ class Terms:
 
 
 def term_s(t, maxlen=200):
-    def go(t):
+    def go(t, d=0):
+        if d > 60:
+            return '…'
         if not isinstance(t, tuple):
             return str(t)
         if not t:
             return '()'
         h = t[0]
         if h == 'field':
-            return '%s.%s' % (go(t[1]), t[2])
+            return '%s.%s' % (go(t[1], d + 1), t[2])
         if h == 'param':
             return t[1]
         if h == 'elem':
@@ -407,7 +448,7 @@ def term_s(t, maxlen=200):
             return repr(t[2])
         if h == 'path':
             return t[1]
-        return '%s(%s)' % (h, ', '.join(go(x) for x in t[1:]))
+        return '%s(%s)' % (h, ', '.join(go(x, d + 1) for x in t[1:]))
     s = go(t)
     return s if len(s) <= maxlen else s[:maxlen] + '…'
 
